@@ -31,6 +31,10 @@ fn main() {
     ba_harness::world::quiet_panics();
     let report = match prop.as_str() {
         "c16" => props::c16::run(&cfg),
+        "c04" => props::sectors::run_c04(&cfg),
+        "c02" => props::sectors::run_c02(&cfg),
+        "c02power" => props::power_ds::run(&cfg),
+        "c02actor" => props::sectors_actor::run(&cfg),
         _ => { eprintln!("unknown property {}", prop); std::process::exit(2); }
     };
     if let Some(dir) = std::path::Path::new(&cfg.out).parent() {
